@@ -10,7 +10,7 @@ META = {
     "text": "Proved (Coq, closed, for every interpretation of the stage functions that respects the frame table): for the mj_forward and mj_step programs regenerated from engine_forward.c (all four integrators, no control callback, no passive flex contact), two mjData that agree on the integration state (and on the sleep bookkeeping arrays, constant while sleeping is disabled) end with identical values in every field the analysis marks as defined, whatever the other fields held; the listed outputs (positions, contacts, constraint forces, qacc, next state) are in that set. The frame table (harness/c01_table.json: reads / always-written / maybe-written fields per stage) is a hand-curated hypothesis: every run validates it on the real stage functions by filling everything outside a stage's read set with garbage. The end-to-end clause (bit-identical results after mj_copyData, mj_copyState or mj_setState into a fresh, reset or previously used mjData; forward, step, 3 steps, forward+inverse) is checked on the implementation: that part is validation, not proof. mj_inverse's internals, plugins, user callbacks and sleeping-enabled runs are not modelled.",
     "note": "Trusted: Coq kernel; translate/stages2v.py and frames2v.py; the frame table (validated by execution only); harness drivers c01_frames.c, mjgen.h; gcc. Theorems closed under the global context.",
     "assumptions": ["stage frames of harness/c01_table.json (validated by garbage injection on every run, not proved)",
-                    "no control callback, no passive flex contact, sleeping disabled",
+                    "no control callback, no passive flex contact, sleeping disabled (theorem and frame table; the end-to-end clause also runs with sleeping enabled)",
                     "frame table validated with the dense constraint Jacobian only (sparse Jacobian: end-to-end clause only)"],
 }
 ALLF = 0x7FFFF
@@ -64,8 +64,14 @@ Eval vm_compute in (show prog_step "mjINT_IMPLICIT").
             meta.append(("V", st))
     ne2e = 25 if ctx.tier == "quick" else 300
     extra = ["sensordata", "energy"]
+    # fixed corpus: sleeping enabled, receiver previously used for other steps (known finding C01-F1)
+    FLfix = sorted(set(Dfwd) | set(extra))
+    lines.append("E 717640 524287 5 1 670468 4 mj_forward_inverse %d %s" % (len(FLfix), " ".join(FLfix)))
+    meta.append(("E", "mj_forward_inverse recv=4 integ=1"))
     for i in range(ne2e):
         seed = rng.randrange(1, 10**6); feat = ALLF if i % 3 == 0 else rng.randrange(0, ALLF + 1); nb = 1 + rng.randrange(6); en = rng.choice([0, 2, 4, 6]) | (rng.choice([0, 1, 2, 3]) << 8) | (rng.choice([0, 1, 2]) << 10) | (rng.choice([0, 1, 2, 3]) << 12) | (rng.choice([0, 0, 1, 1, 3] + list(range(2, 16))) << 14) | (rng.choice([0, 0, 0, 1]) << 18)
+        if i % 4 == 3:
+            en |= 1 << 19      # sleeping enabled (end-to-end clause only; the frame table assumes it off)
         for recv in range(5):
             integ = rng.choice([0, 1, 2, 3])
             D = {0: Deuler, 1: Drk4, 2: Dimpl, 3: Dimpl}[integ]
@@ -90,8 +96,16 @@ Eval vm_compute in (show prog_step "mjINT_IMPLICIT").
                           theorem="frame table entry of %s (hypothesis of C01_noninterference)" % what, found_input=False,
                           signature={"site": what, "what": "frame"})
         else:
+            toks = inp.split()
+            sleeping = bool((int(toks[5]) >> 19) & 1)
+            differing = l.split()[2:] if l.startswith("DIFF") else []
+            if sleeping and "tree_asleep" in differing:
+                # the sleep countdown per tree (tree_asleep) is not a component of mjSTATE_INTEGRATION
+                sig = {"option": "mjENBL_SLEEP", "class": "sleep-timers-not-in-integration-state"}
+            else:
+                sig = {"site": what.split()[0], "what": "two mjData with the same integration state diverge"}
             ctx.violation("impl_violation", {"driver_input": inp[:160] + " ...", "case": what}, expected="bitwise identical fields", observed=l[:400],
-                          theorem="C01_noninterference", signature={"site": what.split()[0], "what": "two mjData with the same integration state diverge"})
+                          theorem="C01_noninterference", signature=sig)
     ctx.cov["evaluations"] = len(lines)
     ctx.cov["distinct_nontrivial"] = len(nontriv)
     ctx.cov["rule"] = ("frame validation: every stage of the table x random mjgen models, garbage outside the read set, must-fields compared and nothing outside must+may written; "
